@@ -2,6 +2,8 @@ package verifh
 
 import (
 	"bytes"
+
+	"github.com/deepteams/webp/animation"
 	"encoding/json"
 	"fmt"
 	"image"
@@ -15,6 +17,8 @@ type Op struct {
 	Img  ImgSpec   `json:"img"`
 	Opt  OptSpec   `json:"opt"`
 	Anim *AnimSpec `json:"anim,omitempty"` // animenc: a history of AddFrame calls + Close
+	// hostile: every decoding entry point on corrupted / truncated stored bytes
+	Hostile *C05Params `json:"hostile,omitempty"`
 }
 
 func (o Op) Key() string {
@@ -25,6 +29,9 @@ func (o Op) Key() string {
 func (o Op) String() string {
 	if o.Kind == "animenc" && o.Anim != nil {
 		return "animenc " + o.Anim.String()
+	}
+	if o.Kind == "hostile" && o.Hostile != nil {
+		return fmt.Sprintf("hostile base=%s faults=%+v", o.Hostile.Base, o.Hostile.Faults)
 	}
 	return fmt.Sprintf("%s %s %s", o.Kind, o.Img.String(), o.Opt.String())
 }
@@ -115,6 +122,8 @@ func ExecOp(op Op, input []byte) Result {
 			return Result{Err: true, ErrStr: fmt.Sprint(res.AddErr, res.CloseErr)}
 		}
 		return Result{Digest: DigestBytes(res.Data), Len: len(res.Data), Bytes: res.Data}
+	case "hostile":
+		return execHostile(input)
 	case "dec":
 		img, err := webp.Decode(NewSimReader(input, ReadPlan{Mode: "whole", HasLen: true, ErrAt: -1}))
 		if err != nil {
@@ -177,3 +186,56 @@ func hashString(s string) uint64 {
 
 // needsInput: decode-type ops read a stored file produced beforehand.
 func needsInput(op Op) bool { return op.Kind != "enc" && op.Kind != "animenc" }
+
+// InputFor returns the stored bytes a decode-type op reads (outside any world).
+func InputFor(op Op) []byte {
+	if op.Kind == "hostile" {
+		return c05Bytes(op.Hostile)
+	}
+	return FileFor(op.Img, op.Opt)
+}
+
+// execHostile runs the decoding entry points on hostile bytes and digests every
+// outcome (error-ness, dimensions, pixels): the outcome must not depend on history.
+func execHostile(data []byte) Result {
+	h := ""
+	add := func(name string, err error, what string) {
+		if err != nil {
+			h += name + ":err;"
+		} else {
+			h += name + ":" + what + ";"
+		}
+	}
+	img, err := webp.Decode(bytes.NewReader(data))
+	d := ""
+	if err == nil {
+		d = DigestImage(img)
+	}
+	add("Decode", err, d)
+	c, err := webp.DecodeConfig(bytes.NewReader(data))
+	add("DecodeConfig", err, fmt.Sprint(c.Width, c.Height, c.ColorModel == nil))
+	f, err := webp.GetFeatures(bytes.NewReader(data))
+	fs := ""
+	if err == nil {
+		fs = fmt.Sprintf("%+v", *f)
+	}
+	add("GetFeatures", err, fs)
+	anim, err := animation.DecodeBytes(data)
+	as := ""
+	if err == nil {
+		as = fmt.Sprint(anim.CanvasWidth, anim.CanvasHeight, len(anim.Frames), anim.LoopCount)
+		if uint64(anim.CanvasWidth)*uint64(anim.CanvasHeight) <= 1<<20 {
+			if e2 := anim.DecodeFrames(); e2 != nil {
+				as += ":frames-err"
+			} else {
+				for _, fr := range anim.Frames {
+					if fr.Image != nil {
+						as += ":" + DigestImage(fr.Image)
+					}
+				}
+			}
+		}
+	}
+	add("animation", err, as)
+	return Result{Digest: DigestBytes([]byte(h)), Len: len(data)}
+}
